@@ -140,6 +140,24 @@ def build(fault_line, pos, where):
                 number = len(phys) + 1
             phys.append(('    ' if i % 2 else '') + l)
         return {}, '\n'.join(phys), '<string>', number
+    if where == 'blanks-file':
+        # the same in a file that begins (and ends) with blank lines
+        lines = BASE[:pos] + [fault_line] + BASE[pos:]
+        phys, number = ['', '   ', ''], None
+        for i, l in enumerate(lines):
+            phys += ['', '   # note %d' % i, '\t'][:(i % 3) + 1]
+            if i == pos:
+                number = len(phys) + 1
+            phys.append(('    ' if i % 2 else '') + l)
+        phys += ['', '']
+        return {'/proj/src/main.asm': '\n'.join(phys) + '\n'}, '/proj/src/main.asm', '/proj/src/main.asm', number
+    if where == 'blanks-included':
+        # (a data item of odd size would misalign the code behind it: realign straight away)
+        after = ['align 4'] if fault_line.split()[0] in DATA_HEADS else ['addi x7, x7, 2']
+        inc = ['', '', '# a part', 'part:', '', 'addi x7, x7, 1'][:3 + pos % 4] + [fault_line] + after + ['', '']
+        main = ['', ''] + BASE[:5] + ['include inc/part.asm'] + BASE[5:]
+        return ({'/proj/src/main.asm': '\n'.join(main), '/proj/src/inc/part.asm': '\n'.join(inc) + '\n'},
+                '/proj/src/main.asm', '/proj/src/inc/part.asm', 4 + pos % 4)
     if where == 'text':
         lines = BASE[:pos] + [fault_line] + BASE[pos:]
         return {}, '\n'.join(lines), '<string>', pos + 1
